@@ -56,8 +56,10 @@ impl Formatter {
             first = false;
         }
 
-        // Ensure file ends with newline
-        self.writer.newline();
+        // Ensure file ends with exactly one newline (every declaration already ends its last line)
+        if !self.writer.ends_with_newline() {
+            self.writer.newline();
+        }
     }
 
     // ========================================================================
